@@ -132,10 +132,18 @@ REF_OPT = {"merge": "no", "subset": [], "blocklimit": 128, "compression": 3, "co
 @st.composite
 def case_s(draw):
     epochs = draw(ops_s())
+    dyn_glob = draw(st.booleans())
+    if dyn_glob:
+        # some documents carry values in concrete fields of the glob field *_dyn
+        for ops in epochs:
+            for op in ops:
+                for doc in (op[1] if op[0] == "group" else [op[1]] if op[0] in ("add", "upd") else []):
+                    if doc.get("w"):
+                        doc["dyn"] = {"a": list(doc["w"])} if len(doc["w"]) < 2 else {"a": doc["w"][:1], "b": doc["w"][1:]}
     return {
         "epochs": epochs,
         "variants": [draw(variant_s(epochs)) for _ in range(3)],
-        "schema": {"t_vector": draw(st.booleans()), "g_sortable": draw(st.booleans()),
+        "schema": {"dyn_glob": dyn_glob, "t_vector": draw(st.booleans()), "g_sortable": draw(st.booleans()),
                    "n_sortable": draw(st.booleans()), "t_boost": draw(st.sampled_from([1.0, 2.0]))},
         "store": draw(st.sampled_from(["ram", "file"])),
         "remove_field": draw(st.booleans()),
@@ -351,6 +359,15 @@ def run(case, out):
                 w.remove_field("w")
             w.commit(optimize=True)
             do = dump(ix)
+            if case["remove_field"]:
+                # the lexicon itself (the dump only lists fields of the schema)
+                rr = ix.reader()
+                try:
+                    left = sorted(set(fn for fn, _ in rr.all_terms()) & set(["w"]))
+                    if left or "w" in list(rr.indexed_field_names()):
+                        out.fail("c06.removed_field_still_present:lexicon", {"variant": vi})
+                finally:
+                    rr.close()
             if do["doc_count_all"] != do["doc_count"] or do["has_deletions"]:
                 out.fail("c06.optimize_left_deletions", [vi, do["doc_count_all"], do["doc_count"]])
             for sec in LOGICAL:
